@@ -39,7 +39,7 @@ fn first_difference(exp: &OpeningHoursExpression, got: &OpeningHoursExpression) 
 }
 
 fn positive(ch: &mut Choices, case: &mut Case) -> Result<(), String> {
-    let cfg = Cfg { max_rules: 4, long_pct: 3, ..Cfg::default() };
+    let cfg = Cfg { max_rules: 4, long_pct: 3, repeat_pct: 4, ..Cfg::default() };
     let (ast, text) = gen_expr(ch, &cfg);
     case.key = text.clone();
     let kinds = label_expr(&ast, case);
@@ -48,6 +48,15 @@ fn positive(ch: &mut Choices, case: &mut Case) -> Result<(), String> {
         Err(p) => Err(format!("parse panicked: {p}")),
         Ok(Err(e)) => Err(format!("sentence of the supported grammar rejected: {e}")),
         Ok(Ok(got)) => {
+            // comments: sorted and deduplicated, judged with the harness' own set (the denoted
+            // tree stores them in the library's container)
+            for (i, (d, g)) in ast.rules.iter().zip(&got.rules).enumerate() {
+                let expected: Vec<String> = d.comments.iter().map(|c| c.to_string()).collect::<std::collections::BTreeSet<_>>().into_iter().collect();
+                let parsed: Vec<String> = g.comments.iter().map(|c| c.to_string()).collect();
+                if parsed != expected {
+                    return Err(format!("rule #{i}: parsed comments {parsed:?}, the sentence carries {expected:?} (sorted, each once)"));
+                }
+            }
             if got == ast {
                 Ok(())
             } else {
